@@ -209,13 +209,13 @@ def cmd_matrix(a):
 
 def cmd_intake(a):
     """copy what a sub-agent left in /tmp/seed/<ID>/out into seeded/<ID>-<i>/"""
-    src = '/tmp/seed/%s/out' % a.id
+    src = '/tmp/seed/%s/%s' % (a.id, a.out)
     made = []
     for i in (1, 2, 3):
         patch = os.path.join(src, 'patch%d.diff' % i)
         if not os.path.exists(patch):
             continue
-        d = os.path.join(HERE, 'seeded', '%s-%d' % (a.id, i))
+        d = os.path.join(HERE, 'seeded', '%s-%d' % (a.id, i + a.offset))
         os.makedirs(d, exist_ok=True)
         shutil.copy(patch, os.path.join(d, 'patch.diff'))
         shutil.copy(os.path.join(src, 'demo%d.py' % i), os.path.join(d, 'demo.py'))
@@ -224,7 +224,8 @@ def cmd_intake(a):
         except Exception as ex:
             meta = {'property': a.id, 'summary': 'meta unreadable: %r' % ex}
         meta['property'] = a.id
-        meta['origin'] = 'independent sub-agent given only the property text and a scratch worktree'
+        meta['origin'] = 'independent sub-agent given only the property text and a scratch worktree' + (
+            ' (second round: also told, in one sentence each, which two changes had already been made for this property, to get different ones)' if a.offset else '')
         with open(os.path.join(d, 'meta.json'), 'w') as f:
             json.dump(meta, f, indent=1)
         made.append(d)
@@ -246,6 +247,8 @@ def main():
     sub.add_parser('matrix')
     i = sub.add_parser('intake')
     i.add_argument('id')
+    i.add_argument('--out', default='out')
+    i.add_argument('--offset', type=int, default=0)
     a = ap.parse_args()
     return {'intake': cmd_intake, 'verify': cmd_verify, 'detect': cmd_detect, 'matrix': cmd_matrix}[a.cmd](a)
 
